@@ -89,6 +89,9 @@ func (d dagWriter) DeleteManyResources(ctx context.Context, ids []ID) error {
 
 // DefineRelationship implements the Writer interface.
 func (d dagWriter) DefineRelationship(ctx context.Context, from ID, t RelationshipType, to ID) error {
+	if from == to {
+		return graph.ErrCyclicDependency
+	}
 	rel := Relationship{From: from, To: to, Type: t}
 	exists, err := d.checkRelationshipExists(ctx, rel)
 	if err != nil || exists {
@@ -117,6 +120,9 @@ func (d dagWriter) DefineFromOneToManyRelationships(ctx context.Context, from ID
 		return err
 	}
 	for _, rel := range rels {
+		if rel.To == from {
+			return graph.ErrCyclicDependency
+		}
 		descendants, err := d.retrieveDescendants(ctx, rel.To)
 		if err != nil {
 			return err
